@@ -493,6 +493,8 @@ def finish(pid, tier, seed, merged, mod, t0):
             merged["inconclusive"].append(
                 "monitor %s evaluated %d < %d times" % (
                     name, merged["counters"].get(name, 0), minimum))
+    if hasattr(mod, "finish_merged"):
+        mod.finish_merged(merged, tier)
     if len(merged["distinct"]) < 2:
         merged["inconclusive"].append("fewer than 2 distinct cases")
 
